@@ -2,6 +2,7 @@
 C19 — bulk export is faithful, ordered and total over documented attributes.
 -/
 import PyTRS.Model.Export
+import PyTRS.Lemmas.Csv
 namespace PyTRS
 open PyTRS.Export PyTRS.Obj
 
@@ -40,6 +41,26 @@ theorem C19_row_width (ts : List TractObj) (atts : List String) (nice ex : Bool)
   · simp only [List.mem_map] at h
     obtain ⟨t, _, rfl⟩ := h
     simp [toList]
+
+/-- reading back what the writer wrote gives the rows back, for cells containing commas, quotes, CR and LF
+    (the excel-dialect quoting model; CPython's csv is cross-checked against this model on every run) -/
+theorem C19_csv_roundtrip (rows : List (List Str)) (h : ∀ r ∈ rows, r ≠ []) :
+    readCsv ((rows.map writeRow).flatten) = rows :=
+  csv_roundtrip rows h
+
+/-- so the file written by `tracts_to_csv` reads back as exactly one header row (for a new file) plus one row per
+    tract whose cells are the scrubbed attribute values — provided at least one attribute is requested -/
+theorem C19_file_reads_back (ts : List TractObj) (atts : List String) (nice ex : Bool) (mode : String)
+    (hne : atts ≠ []) :
+    readCsv (((tractsToCsvRows ts atts nice ex mode).map writeRow).flatten) = tractsToCsvRows ts atts nice ex mode := by
+  apply csv_roundtrip
+  intro r hr
+  have hw := C19_row_width ts atts nice ex mode r hr
+  intro hnil
+  rw [hnil] at hw
+  cases atts with
+  | nil => exact hne rfl
+  | cons a t => simp at hw
 
 /-- an unknown attribute name yields the documented placeholder instead of an error -/
 theorem C19_unknown_is_na (t : TractObj) : getAttrNA t "bogus" = .str "bogus: n/a".toList := by
